@@ -74,6 +74,29 @@ typedef struct upq {
 static upq UPQ[WL_MAX_POOLS];
 static int nupq;
 static long up_creates, up_frees;
+/* Unit handles come from a static slab, not from malloc: the runtime hashes them, so heap
+ * addresses (which move with the size of the process environment) would make a run depend
+ * on where it is started from. */
+#define UNODE_SLAB 1024
+static unode unode_slab[UNODE_SLAB];
+static int unode_free_list[UNODE_SLAB], unode_nfree = -1;
+static unode *unode_alloc(void)
+{
+    if (unode_nfree < 0) {
+        unode_nfree = 0;
+        for (int i = UNODE_SLAB - 1; i >= 0; i--)
+            unode_free_list[unode_nfree++] = i;
+    }
+    if (unode_nfree == 0)
+        sim_fail("infra:unode-slab", "more than %d live user-pool units", UNODE_SLAB);
+    unode *u = &unode_slab[unode_free_list[--unode_nfree]];
+    memset(u, 0, sizeof *u);
+    return u;
+}
+static void unode_release(unode *u)
+{
+    unode_free_list[unode_nfree++] = (int)(u - unode_slab);
+}
 
 static int upq_index(ABT_pool pool)
 {
@@ -85,7 +108,7 @@ static int upq_index(ABT_pool pool)
 }
 static ABT_unit up_create_unit(ABT_pool pool, ABT_thread thread)
 {
-    unode *u = (unode *)calloc(1, sizeof *u);
+    unode *u = unode_alloc();
     u->th = thread;
     u->pool = upq_index(pool);
     up_creates++;
@@ -98,7 +121,7 @@ static void up_free_unit(ABT_pool pool, ABT_unit unit)
     SIM_CHECK(!u->queued, "upool:free-queued-unit", "free_unit called for a unit that is still queued in the pool");
     u->pool = -1;
     up_frees++;
-    free(u);
+    unode_release(u);
 }
 static ABT_bool up_is_empty(ABT_pool pool)
 {
@@ -196,7 +219,7 @@ static ABT_pool mk_user_pool(void)
 static int lp_fail_remove;
 static ABT_unit lp_create(ABT_thread thread)
 {
-    unode *u = (unode *)calloc(1, sizeof *u);
+    unode *u = unode_alloc();
     u->th = thread;
     u->pool = -1; /* the legacy callback is not told the pool: learnt at the first push */
     up_creates++;
@@ -207,7 +230,7 @@ static void lp_free(ABT_unit *unit)
     unode *u = (unode *)*unit;
     SIM_CHECK(!u->queued, "upool:free-queued-unit", "u_free called for a unit that is still queued in the pool");
     up_frees++;
-    free(u);
+    unode_release(u);
     *unit = ABT_UNIT_NULL;
 }
 static ABT_bool lp_is_in_pool(ABT_unit unit)
